@@ -55,12 +55,12 @@ Section Inv.
   Variable fin : option flt.
   Variable inkeys : list vkey.
 
-  Definition fin_ok (t : ty) : bool := match fin with Some f => flt_ok u f t | None => true end.
+  Definition fin_ok (n : string) (t : ty) (s : string) : bool := match fin with Some f => flt_okv u f n t s | None => true end.
 
   (* who may have an edge to the root *)
   Definition rootok (x : vkey) : Prop :=
     In x inkeys \/ is_func x = true \/
-    match x with KVal _ t _ | KArg t _ => fin_ok t = true | _ => False end.
+    match x with KVal n t s => fin_ok n t s = true | KArg t s => fin_ok EmptyString t s = true | _ => False end.
 
   Record RI (g : rgraph) : Prop := {
     ri_wf : wf_graph g;
@@ -261,9 +261,9 @@ Section Inv.
     intros I0. unfold step_redefine. apply (fold_left_inv RI); [exact I0|].
     intros a k Ia _.
     destruct k as [|ft|n t s|t s|t s]; try exact Ia.
-    - destruct (match fin with Some f => flt_ok u f t | None => true end) eqn:F; [|exact Ia].
+    - destruct (match fin with Some f => flt_okv u f n t s | None => true end) eqn:F; [|exact Ia].
       apply RI_add_e; [exact Ia|apply wt_normal|]. intros _. right. right. exact F.
-    - destruct (match fin with Some f => flt_ok u f t | None => true end) eqn:F; [|exact Ia].
+    - destruct (match fin with Some f => flt_okv u f EmptyString t s | None => true end) eqn:F; [|exact Ia].
       apply RI_add_e; [exact Ia|apply wt_normal|]. intros _. right. right. exact F.
   Qed.
 
